@@ -175,6 +175,11 @@ def gen_history(rng, allow_unclean):
         last = max(live)
         ops += [["reindex", None]] + [["delnote", last, 0] for _ in range(4)] + [["reindex", None], ["addnote", min(live)],
                                                                                  ["addnote", min(live)], ["reindex", None]]
+    if (rng.random() < 0.25 or "empty" in FORCE) and live:
+        # a page is indexed while it holds no note at all, then gets notes again and is edited twice
+        e = max(live)
+        ops += [["reindex", None]] + [["delnote", e, 0] for _ in range(5)] + [["reindex", None], ["addnote", e], ["addnote", e], ["reindex", None],
+                                                                               ["nextday"], ["editnote", e, 0], ["reindex", None], ["editnote", e, 1], ["reindex", None]]
     if (rng.random() < 0.4 or "twice" in FORCE) and 1 in live:
         # the same note edited on two later days (first stamp inserts the date, the second replaces it)
         j = rng.randint(0, 1)
@@ -310,7 +315,7 @@ def run(oc, tier, seed):
             break
         # the first histories of every run contain each special tail, whatever the seed
         FORCE.clear()
-        FORCE.update({0: {"rows"}, 1: {"twice"}, 2: {"explicit"}, 3: {"rows", "twice"}}.get(i, set()))
+        FORCE.update({0: {"rows"}, 1: {"twice"}, 2: {"explicit"}, 3: {"rows", "twice"}, 4: {"empty"}}.get(i, set()))
         ok = run_history(eng, rng, oc, allow_unclean=(i % 3 == 2) and not oc.corr_mismatch)
         FORCE.clear()
         oc.nontriv(("h", i))
